@@ -206,6 +206,11 @@ func (env *Env) Eval(e Expr) Term {
 			r.T = base.T
 			return r
 		}
+		if strings.HasPrefix(base.Sort, "pv_Sl_") {
+			r := fv.subSlice(base, lo, hi)
+			r.T = base.T
+			return r
+		}
 		return env.fail("slice expression on %s unsupported in specs", base.Sort)
 	case *EUn:
 		v := env.Eval(x.X)
@@ -487,7 +492,7 @@ func (env *Env) evalCall(x *ECall) Term {
 		}
 		ks, vs := fv.sortOf(mt.Key()), fv.sortOf(mt.Elem())
 		dom := env.heapRead(mapDomHeap(ks, vs), arraySort(ks, SBool), m)
-		return tSelect(dom, env.coerce(k, ks), SBool)
+		return tAnd(tNot(tEq(m, mkInt(0))), tSelect(dom, env.coerce(k, ks), SBool))
 	case "dyn":
 		// dyn(v) == tid  -- dynamic type id of an interface value
 		a := env.Eval(x.Args[0])
@@ -536,6 +541,22 @@ func (env *Env) evalCall(x *ECall) Term {
 		fv.decls.Add(1, "pv_evalphase", "(declare-const pv_evalphase Bool)")
 		fv.usesEvalPhase = true
 		return Term{S: "pv_evalphase", Sort: SBool}
+	case "runes":
+		a := env.Eval(x.Args[0])
+		return fv.strToSlice(a, types.NewSlice(types.Typ[types.Int32]))
+	case "str":
+		a := env.Eval(x.Args[0])
+		r := fv.sliceToStr(a)
+		r.T = types.Typ[types.String]
+		return r
+	case "rlen":
+		a := env.Eval(x.Args[0])
+		fv.runeDecls()
+		return Term{S: "(pv_rlen " + a.S + ")", Sort: SInt, T: types.Typ[types.Int]}
+	case "runeoff":
+		a, b := env.Eval(x.Args[0]), env.Eval(x.Args[1])
+		fv.runeDecls()
+		return Term{S: fmt.Sprintf("(pv_runeoff %s %s)", a.S, b.S), Sort: SInt, T: types.Typ[types.Int]}
 	case "pay":
 		a := env.Eval(x.Args[0])
 		return Term{S: "(pv_pay " + a.S + ")", Sort: SInt, T: types.Typ[types.Int]}
